@@ -429,6 +429,9 @@ def run_script(script, trace=False):
     # a broker that merely refuses / never completes NEW connections, or hangs, is not one of them)
     r.transport_faults = any(st["do"] in ("kill_broker", "move_leader", "restart_broker", "shift_leader")
                              or st.get("action") in ("drop_before", "drop_after", "silent", "delay") for st in script["steps"])
+    # (... or the broker itself cut it: a produce request with acks=0 that fails cannot be answered, the broker closes
+    # the connection instead - and with it go the requests written behind it at the same instant)
+    r.transport_faults = r.transport_faults or any(e.get("fate") == "closed-acks0-error" for e in cluster.requests(api="Produce"))
     return r
 
 
@@ -768,10 +771,14 @@ def situations(r, hist):
         if e.get("fate") == "answered" and e.get("t_sent") is not None and e["t_sent"] > e["t"]:
             q = recs.get(e.get("corr"))
             if q is not None and q["out"] is not None and q["out"][0] == "fail" and q["t_done"] is not None and q["t_done"] <= e["t_sent"]:
-                # (written to a connection that is open: the client reads an answer to a request it has given up)
-                hist["fs:produce-reply-delivered-after-client-timeout"] += 1
-                if any(a["error"] == 0 and a["messages"] for a in e.get("applied", [])):
-                    hist["fs:produce-reply-delivered-after-client-timeout:messages-were-appended"] += 1
+                # (written to a connection that is open: the client reads an answer to a request it has given up;
+                # "b7" is the client's own RequestTimedOutError)
+                if q["out"][1] == "b7":
+                    hist["fs:produce-reply-delivered-after-client-timeout"] += 1
+                    if any(a["error"] == 0 and a["messages"] for a in e.get("applied", [])):
+                        hist["fs:produce-reply-delivered-after-client-timeout:messages-were-appended"] += 1
+                else:
+                    hist["fs:produce-reply-delivered-after-request-ended:" + str(q["out"][1])] += 1
         elif e.get("fate") == "conn-closed" and e.get("response") is not None:
             hist["fs:produce-reply-late-but-connection-closed"] += 1
     for e, _parts in reqs:
